@@ -4,7 +4,9 @@
 //!   pred_mode: bits 0-1 predicate (0 none, 1 even errors, 2 all, 3 none accepted); bit 2: handle() BEFORE the
 //!     strategy setter; bits 3..: builder route: +8 name() first, +16 on_event() between the two setters,
 //!     +32 name() and on_event() last, +64 a decoy strategy setter before the real one, +128 the convenience
-//!     constructor of layer.rs (only when there is no predicate; the other route bits are then ignored)
+//!     constructor of layer.rs (only when there is no predicate; the other route bits are then ignored),
+//!     +256 a decoy handle(the NEGATED predicate) before the real handle() (only when there is a predicate): every
+//!     setter is last-wins, so the decoys must leave no trace
 //!   ops: 1 CALL (a: 0 the service, 1 a long-lived clone, 2 a fresh clone; b = request) -> new future, not polled
 //!        2 POLL a; 3 INNER_DONE (call a, outcome b); 4 BACKUP_DONE (call a, outcome b); 5 DROP a;
 //!        6 READY_FAIL (a handle, b error): the inner service's next poll_ready fails with b, poll_ready on handle a
@@ -117,6 +119,15 @@ fn build(s: &[i128], sh: &Arc<Shared>) -> FallbackLayer<i128, i128, i128> {
     let b = if route & 1 != 0 { b.name("verif-first") } else { b };
     let with_handle = |b: tower_resilience_fallback::FallbackConfigBuilder<i128, i128, i128>| {
         let (s1, s2, s3) = (sh.clone(), sh.clone(), sh.clone());
+        // handle() replaces the predicate given before: the decoy is the negation of the real predicate
+        let b = if route & 32 != 0 {
+            match pm_mode {
+                0 => b,
+                1 => b.handle(|e: &i128| e % 2 != 0),
+                2 => b.handle(|_e: &i128| false),
+                _ => b.handle(|_e: &i128| true),
+            }
+        } else { b };
         match pm_mode {
             0 => b,
             1 => b.handle(move |e: &i128| { s1.ev(1, *e, 0); e % 2 == 0 }),
@@ -190,9 +201,20 @@ fn run(s: &[i128]) -> Vec<i128> {
                     true
                 }
                 2 if valid && futs[a as usize].alive() => {
-                    *sh.cur.lock().unwrap() = a;
-                    futs[a as usize].poll();
-                    *sh.cur.lock().unwrap() = -1;
+                    // one POLL = poll, and poll again as long as the future woke itself (a future that yields
+                    // once, or completes through a spawned task, is still "polled after the answer")
+                    for _ in 0..16 {
+                        *sh.cur.lock().unwrap() = a;
+                        let done = futs[a as usize].poll();
+                        *sh.cur.lock().unwrap() = -1;
+                        if done {
+                            break;
+                        }
+                        settle().await;
+                        if !futs[a as usize].woken() {
+                            break;
+                        }
+                    }
                     true
                 }
                 3 if valid => match sh.inner_tx.lock().unwrap().remove(&a) {
